@@ -187,7 +187,7 @@ def su2Tab (l1 l2 l3 : Nat) : Mat :=
     if n' < 0 ∨ n' > 2 * (l3 : Int) then [] else su2Coeff l1 l2 l3 i k n'.toNat
 
 /-- complex value of `einsum("ij,kl,mn,ikn->jlm", Q1, Q2, conj(Q3.T), C)[j,l,m]` -/
-def cgC (l1 l2 l3 j l m : Nat) : CS :=
+def cgC (tab : Mat) (l1 l2 l3 j l m : Nat) : CS :=
   (cbRows l1 j).foldl (fun (acc : CS) (i : Nat) =>
     (cbRows l2 l).foldl (fun (acc : CS) (k : Nat) =>
       -- m3 = m1 + m2  ⇔  n - l3 = (i - l1) + (k - l2)
@@ -195,7 +195,7 @@ def cgC (l1 l2 l3 j l m : Nat) : CS :=
       if n' < 0 ∨ n' > 2 * (l3 : Int) then acc else
       let n := n'.toNat
       if (cbRows l3 m).contains n then
-        acc.addPS ((cbEntry l1 i j) * (cbEntry l2 k l) * (cbEntry l3 n m).conj * ⟨0, (su2Tab l1 l2 l3).get i k⟩)
+        acc.addPS ((cbEntry l1 i j) * (cbEntry l2 k l) * (cbEntry l3 n m).conj * ⟨0, tab.get i k⟩)
       else acc) acc) CS.zero
 
 def admissible (l1 l2 l3 : Nat) : Bool :=
@@ -203,12 +203,14 @@ def admissible (l1 l2 l3 : Nat) : Bool :=
 
 /-- real part of the basis-changed table, before normalisation -/
 def cgRaw (l1 l2 l3 : Nat) : T3 :=
-  tabulate3 (2 * l1 + 1) (2 * l2 + 1) (2 * l3 + 1) fun i j k => (cgC l1 l2 l3 i j k).re
+  let tab := su2Tab l1 l2 l3
+  tabulate3 (2 * l1 + 1) (2 * l2 + 1) (2 * l3 + 1) fun i j k => (cgC tab l1 l2 l3 i j k).re
 
 /-- the imaginary parts the code asserts to be < 1e-5 are exactly zero -/
 def w3jImagZero (l1 l2 l3 : Nat) : Bool :=
+  let tab := su2Tab l1 l2 l3
   (List.range (2 * l1 + 1)).all fun i => (List.range (2 * l2 + 1)).all fun j =>
-    (List.range (2 * l3 + 1)).all fun k => (cgC l1 l2 l3 i j k).im.isZero
+    (List.range (2 * l3 + 1)).all fun k => (cgC tab l1 l2 l3 i j k).im.isZero
 
 def sumList (l : List SqrtQ) : SqrtQ := l.foldl (fun acc x => acc + x) []
 
